@@ -78,7 +78,12 @@ pub(crate) fn process<'t>(name: &'t str, regs: Vec<N>, args: Vec<R>) -> Result<'
         s if s.starts_with(['c', 'C']) => {
             let (&ctrl, regs) = regs.split_first().ok_or(Error::WrongRegNumber(name, 0))?;
 
-            match process(&name[1..], regs.into(), args) {
+            // a controlled `u1` is a controlled phase shift diag(1,1,1,e^{i lambda}), not a controlled `rz`
+            let op = match &name[1..] {
+                stem @ ("u1" | "U1") => gate!(stem, r(1), phase_shift, regs.to_vec(), args),
+                stem => process(stem, regs.into(), args),
+            };
+            match op {
                 Ok(op) => {
                     let act = op.act_on();
                     op.c(ctrl).ok_or(Error::InvalidControlMask(ctrl, act))
